@@ -24,7 +24,7 @@ from bounded import domains as D
 ID = "C15"
 RULE = ("frames: every dataset with n<=3, m<=2 (701; name kind and scheme cycling over 6 name kinds x 9 schemes, every "
         "dataset additionally under the unifying scheme when incomplete) x 19 algorithm configurations (cplex ones on "
-        "the stand-in) x {run, run again, score, description} + 9 read / partition operations, snapshot compared after "
+        "the stand-in, asked for a single ranking from 5 elements on) x {run, run again, score, description} + 9 read / partition operations, snapshot compared after "
         "each; sequences: the same datasets x all sequences of <= 2 (thorough 3) of 9 operations (BioConsert, BioCo, "
         "Borda, Copeland, PickAPerm, ParCons(aux=BioCo), both partitions, derived datasets, direct score + "
         "description) on shared objects vs fresh copies. Seeded datasets n<=5, m<=4 on top. Non-trivial = universe of "
@@ -39,6 +39,12 @@ TIMEOUT = 900
 
 SEQ_OPS = ["alg:BioConsert", "alg:BioCo", "alg:Borda", "alg:Copeland", "alg:PickAPerm", "alg:ParCons(bound=0,aux=BioCo)",
            "partitions", "derived", "score"]
+
+
+def passthrough(e):
+    """The runner's per-case alarm (CaseTimeout) must never be taken for an exception of the code under test."""
+    if type(e).__name__ == "CaseTimeout":
+        raise e
 
 
 def gen_cases(tier, seed):
@@ -131,8 +137,11 @@ def run_alg(name, alg, d, sc):
     from bounded import adapt as A
     from bounded import algs
     fl = algs.flags(name)
+    # the stand-in enumerates ALL optima by branching (55 s for 170 optima on 6 elements): ask it for one ranking from
+    # 5 elements on
+    one = bool(fl.get("one_only")) or (bool(fl.get("standin")) and len(d.universe) >= 5)
     with algs.cplex_mode(bool(fl.get("standin"))), A.quiet():
-        return alg.compute_consensus_rankings(d, sc, bool(fl.get("one_only")))
+        return alg.compute_consensus_rankings(d, sc, one)
 
 
 def first_candidate(d):
@@ -179,6 +188,7 @@ def do_op(op, d, sc):
             s2 = float(KemenyComputingFactory(sc).get_kemeny_score(cand, d))
             return ("ok", s1, s2, desc, sc.description(), sc.get_nickname())
     except Exception as e:                                  # noqa: BLE001 - an exception is a result here
+        passthrough(e)
         return ("raises", type(e).__name__, str(e)[:120])
     raise ValueError(op)
 
@@ -236,6 +246,7 @@ def check_frames(case, rec):
             try:
                 cons = run_alg(name, alg, d, sc)
             except Exception as e:                          # noqa: BLE001
+                passthrough(e)
                 rec.notrun[name] = type(e).__name__
                 frame(name, {"raised": "%s: %s" % (type(e).__name__, str(e)[:120])})
                 continue
@@ -246,6 +257,7 @@ def check_frames(case, rec):
             try:
                 res1 = cons_result(cons)
             except Exception as e:                          # noqa: BLE001
+                passthrough(e)
                 rec.notrun[name + " score"] = type(e).__name__
                 frame("Consensus.kemeny_score")
                 continue
@@ -254,6 +266,7 @@ def check_frames(case, rec):
                 with A.quiet():
                     cons.description()
             except Exception as e:                          # noqa: BLE001
+                passthrough(e)
                 rec.notrun[name + " description"] = type(e).__name__
             frame("Consensus.description", {"algorithm": name})
             if state["d"] is not d:
@@ -267,6 +280,7 @@ def check_frames(case, rec):
                 random.seed(6)
                 res2 = cons_result(run_alg(name, alg, d, sc))
             except Exception as e:                          # noqa: BLE001
+                passthrough(e)
                 res2 = ("raises", type(e).__name__, str(e)[:120])
             frame(name, {"call": "second"})
             rec.evals += 1
@@ -296,6 +310,7 @@ def check_frames(case, rec):
                 with A.quiet():
                     fn()
             except Exception as e:                          # noqa: BLE001
+                passthrough(e)
                 rec.notrun[site] = type(e).__name__
             frame(site)
             if nontrivial:
